@@ -419,9 +419,10 @@ func (c *Ctx) geRun() []*geVerdict {
 	// the sentences of the parser families
 	for _, f := range gxFamilies(false) {
 		switch f.name {
-		case "operator-pairs", "equal-level-chains", "prefix-postfix-call-index-against-binary", "calls-index-grouping", "nested-calls":
+		case "operator-pairs", "equal-level-chains", "prefix-postfix-call-index-against-binary", "calls-index-grouping", "nested-calls", "spacing-comments-case":
+			// (the last one: white-space and comment tokens anywhere, keywords in any letter case - the value is that of the bare token string)
 			for _, it := range f.items {
-				if strings.Contains(it, "LIKE") {
+				if strings.Contains(strings.ToUpper(it), "LIKE") {
 					continue
 				}
 				items = append(items, struct{ fam, expr string }{f.name, it})
@@ -557,7 +558,7 @@ func (c *Ctx) geRun() []*geVerdict {
 
 func init() {
 	register(&Rule{ID: "GRAM.eval", Floor: 6,
-		Doc: "the stack evaluator run abstractly through NewExpressionCalculator/SetVariantOperations/SetOriginalTokens/EvaluateUsingVariablesAndFunctions with opaque operations, variables and functions: for every sentence of the parser families and every operator over every pair of operand kinds (string, true, false, null, integer, literal) the operations applied, their operands in order, the arguments of calls and the result equal the evaluation of the syntax tree; a second evaluation and an evaluation after a failed one give the same",
+		Doc: "the stack evaluator run abstractly through NewExpressionCalculator/SetVariantOperations/SetOriginalTokens/EvaluateUsingVariablesAndFunctions with opaque operations, variables and functions: for every sentence of the parser families (white-space and comment tokens anywhere and keywords in any letter case included) and every operator over every pair of operand kinds (string, true, false, null, integer, literal) the operations applied, their operands in order, the arguments of calls and the result equal the evaluation of the syntax tree; a second evaluation and an evaluation after a failed one give the same",
 		Run: ruleGramEval})
 }
 
